@@ -7,6 +7,7 @@
    No proofs here.  The request is what net/http.ReadRequest hands to the proxy. *)
 From FwdLib Require Export Hdr.
 From G01 Require Export Via.
+From G16 Require Model.   (* C16's model of header rewrite rules (header.Header.Apply), used read-only *)
 
 Record mreq := {
   q_method : str;
@@ -152,10 +153,65 @@ Definition bad_framing (h : hmap) : option hmap :=
 Definition set_empty_user_agent (h : hmap) : hmap :=
   match raw_get k_ua h with Some _ => h | None => h_set k_ua [] h end.
 
+(* ---------- configuration of the inner group: --header rules and --credentials ---------- *)
+(* a rule as C16 models it: action 0 Remove, 1 RemoveByPrefix, 2 Empty, 3 Add, otherwise RenameCase *)
+Definition mkr (a : N) (n v : str) : G16.Model.rule :=
+  {| G16.Model.r_act := if a =? 0 then G16.Model.Remove else if a =? 1 then G16.Model.RemoveByPrefix
+                        else if a =? 2 then G16.Model.Empty else if a =? 3 then G16.Model.Add else G16.Model.RenameCase;
+     G16.Model.r_name := n; G16.Model.r_val := v |}.
+
+Record pcfg := {
+  p_request_rules : list G16.Model.rule;   (* --header *)
+  p_connect_rules : list G16.Model.rule;   (* --connect-header *)
+  p_cred : option (str * str)              (* what CredentialsMatcher.MatchURL(req.URL) answers for this request
+                                              (user, password); the matcher itself is C06's *)
+}.
+Definition no_cfg : pcfg := {| p_request_rules := []; p_connect_rules := []; p_cred := None |}.
+
+(* command/run configureHeadersModifiers: one request modifier, CONNECT -> connect rules, else request rules;
+   header.Headers.ModifyRequest applies the rules in order to req.Header *)
+Definition user_rules (cfg : pcfg) (r : mreq) (h : hmap) : hmap :=
+  G16.Model.apply_rules (if str_eqb (q_method r) m_connect then p_connect_rules cfg else p_request_rules cfg) h.
+
+(* encoding/base64 StdEncoding *)
+Definition b64char (n : N) : N :=
+  if n <? 26 then 65 + n else if n <? 52 then 97 + (n - 26) else if n <? 62 then 48 + (n - 52)
+  else if n =? 62 then 43 else 47.
+Fixpoint b64 (s : str) : str :=
+  match s with
+  | [] => []
+  | a :: r1 =>
+      match r1 with
+      | [] => [b64char (a / 4); b64char ((a mod 4) * 16); 61; 61]
+      | c :: r2 =>
+          match r2 with
+          | [] => [b64char (a / 4); b64char ((a mod 4) * 16 + c / 16); b64char ((c mod 16) * 4); 61]
+          | d :: r3 => b64char (a / 4) :: b64char ((a mod 4) * 16 + c / 16) ::
+                       b64char ((c mod 16) * 4 + d / 64) :: b64char (d mod 64) :: b64 r3
+          end
+      end
+  end.
+Definition k_authorization := b "Authorization".
+Definition basic_value (u p : str) : str := b "Basic " ++ b64 (u ++ [58] ++ p).
+
+(* HTTPProxy.setBasicAuth: how "the client sent no Authorization" is tested — Tables.basic_auth_tests_key_presence
+   true  = _, ok := req.Header["Authorization"]; !ok   (the key is absent)
+   false = req.Header.Get("Authorization") == ""        (first field line empty)           *)
+Definition auth_absent (h : hmap) : bool :=
+  if basic_auth_tests_key_presence then match raw_get k_authorization h with None => true | Some _ => false end
+  else is_empty (h_get k_authorization h).
+Definition site_auth (cfg : pcfg) (h : hmap) : hmap :=
+  if auth_absent h then
+    match p_cred cfg with
+    | Some (u, p) => h_set k_authorization (basic_value u p) h     (* req.SetBasicAuth *)
+    | None => h
+    end
+  else h.
+
 (* ---------- composition in source order ---------- *)
 Inductive outcome := Refused (status : N) | Passed (r : mreq).
 
-Definition apply_mod (tag : str) (name : str) (r : mreq) : outcome :=
+Definition apply_mod (cfg : pcfg) (tag : str) (name : str) (r : mreq) : outcome :=
   if str_eqb name (b "NewHopByHopModifier") then Passed (set_hdr r (remove_hop_by_hop (q_hdr r)))
   else if str_eqb name (b "NewForwardedModifier") then Passed (forwarded_gen xff_reads_all_lines r)
   else if str_eqb name (b "NewBadFramingModifier") then
@@ -165,16 +221,17 @@ Definition apply_mod (tag : str) (name : str) (r : mreq) : outcome :=
     | ViaRefused st _ => Refused (status_of_error_status st)
     | ViaOk h => Passed (set_hdr r h)
     end
-  else if str_eqb name (b "setBasicAuth") then Passed r               (* no credentials configured *)
+  else if str_eqb name (b "user") then Passed (set_hdr r (user_rules cfg r (q_hdr r)))   (* config.RequestModifiers *)
+  else if str_eqb name (b "setBasicAuth") then Passed (set_hdr r (site_auth cfg (q_hdr r)))
   else if str_eqb name (b "setEmptyUserAgent") then Passed (set_hdr r (set_empty_user_agent (q_hdr r)))
-  else Passed r.                                                       (* "inner" marker, user modifiers: none *)
+  else Passed r.
 
-Fixpoint run_mods (tag : str) (names : list str) (r : mreq) : outcome :=
+Fixpoint run_mods (cfg : pcfg) (tag : str) (names : list str) (r : mreq) : outcome :=
   match names with
   | [] => Passed r
-  | n :: rest => match apply_mod tag n r with
+  | n :: rest => match apply_mod cfg tag n r with
                  | Refused st => Refused st
-                 | Passed r' => run_mods tag rest r'
+                 | Passed r' => run_mods cfg tag rest r'
                  end
   end.
 
@@ -183,26 +240,29 @@ Definition flat_stack : list str :=
   flat_map (fun n => if str_eqb n (b "inner") then mw_inner_order else [n]) stack_request_order.
 
 (* modifyRequest as configured by middlewareStack without access controls *)
-Definition modify_request (tag : str) (r : mreq) : outcome := run_mods tag flat_stack r.
+Definition modify_request_cfg (cfg : pcfg) (tag : str) (r : mreq) : outcome := run_mods cfg tag flat_stack r.
+(* without header rules and credentials *)
+Definition modify_request (tag : str) (r : mreq) : outcome := modify_request_cfg no_cfg tag r.
 
 (* proxyConn.handle up to roundTrip, for non-CONNECT requests; steps in Tables.handle_order *)
-Definition handle_step (tag : str) (name : str) (st : mreq * str) : outcome * str :=
+Definition handle_step (cfg : pcfg) (tag : str) (name : str) (st : mreq * str) : outcome * str :=
   let (r, up) := st in
   if str_eqb name (b "fixRequestScheme") then (Passed (fix_request_scheme proxy_allow_http r), up)
   else if str_eqb name (b "upgradeType") then (Passed r, upgrade_type (q_hdr r))
-  else if str_eqb name (b "modifyRequest") then (modify_request tag r, up)
+  else if str_eqb name (b "modifyRequest") then (modify_request_cfg cfg tag r, up)
   else if str_eqb name (b "readdUpgrade") then
     (Passed (if is_empty up then r
              else set_hdr r (h_set k_upgrade up (h_set k_connection k_upgrade (q_hdr r)))), up)
   else (Passed r, up).
 
-Fixpoint run_handle (tag : str) (names : list str) (st : mreq * str) : outcome :=
+Fixpoint run_handle (cfg : pcfg) (tag : str) (names : list str) (st : mreq * str) : outcome :=
   match names with
   | [] => Passed (fst st)
-  | n :: rest => match handle_step tag n st with
+  | n :: rest => match handle_step cfg tag n st with
                  | (Refused s, _) => Refused s
-                 | (Passed r', up') => run_handle tag rest (r', up')
+                 | (Passed r', up') => run_handle cfg tag rest (r', up')
                  end
   end.
 
-Definition handle_request (tag : str) (r : mreq) : outcome := run_handle tag handle_order (r, []).
+Definition handle_request_cfg (cfg : pcfg) (tag : str) (r : mreq) : outcome := run_handle cfg tag handle_order (r, []).
+Definition handle_request (tag : str) (r : mreq) : outcome := handle_request_cfg no_cfg tag r.
